@@ -41,7 +41,7 @@ PROPERTIES = {
              'the parameter resolution cannot panic and bounds every chunk size by the known input length (no position wrap-around). '
              'Not decided: functional correctness of the merge for every key multiset, equality over all inputs.'),
     'C02': P('find/first/any/all answer with the first match in source order',
-             ['C02-MINIDX', 'C02-IDX', 'C02-FIRST', 'C02-ACCEPT', 'C02-ANYALL', 'C01-COMPOSE', 'S2', 'S4', 'S5', 'C15-CLAMP', 'C15-CHUNKCAP', 'C15-CHUNKCAP-U', 'C01-FRESH', 'C02-FRESHSEQ', 'C05-SOURCE', 'C05-WORKER', 'C01-KEEP', 'C01-NOSHUFFLE'],
+             ['C02-MINIDX', 'C02-IDX', 'C02-FIRST', 'C02-ACCEPT', 'C02-ANYALL', 'C01-COMPOSE', 'S2', 'S4', 'S5', 'C15-CLAMP', 'C15-CHUNKCAP', 'C15-CHUNKCAP-U', 'C01-FRESH', 'C02-FRESHSEQ', 'C05-SOURCE', 'C05-WORKER', 'C01-KEEP', 'C01-NOSHUFFLE', 'C02-EAGERIDX'],
              STATIC + 'Decided: the cross-thread reduction of find results is min-by-index on its whole finite domain; reported indices '
              'originate from the pull position; each task returns its own first match, searched with exactly the user filter as acceptance test; any/all/find_with_index wiring. '
              'Not decided: the schedule quantifier itself (discharged compositionally through T3).'),
